@@ -3,6 +3,8 @@ import json
 from pathlib import Path
 V = Path(__file__).resolve().parent.parent
 reg = json.loads((V / "harness" / "registry.json").read_text())
+for frag in sorted((V / "harness" / "registry.d").glob("*.json")):
+    reg.update(json.loads(frag.read_text()))
 props = [json.loads(l) for l in (V / "properties.jsonl").read_text().splitlines() if l.strip()]
 checks, na = [], []
 for p in props:
